@@ -41,6 +41,9 @@ def run(ctx):
     summ2, _, _ = pscommon.run_mbt(ctx, "MC_PSProg", cl, "pslimits", base_heap="FreshHeap", workers=1, replay_args=("-count",))
     pscommon.absorb(ctx, summ2, "vh replay-ps (MC_PSProg limits)", "PSMachine!EnterProc/CallProc/Guarded, PSOps!NewContainer")
     ctx.extra["limit_shapes"] = summ2["vectors"]
+    # (b') the dictionary-stack limit also holds inside an eexec section entered at the limit (plaintext 14)
+    from checks import c05
+    c05.eexec_layouts(ctx, ctx.tier == "quick", only=(14, "eexec[budget]"), how_prefix="limits and budget inside eexec: ", count=True)
     # (c) the %! start check
     import os
     d = ctx.specdir()
